@@ -493,26 +493,18 @@ def finishOp (s : St) : IO St := do
       for h in d.htlcs do
         match d'.htlcs.find? (·.key == h.key) with
         | none =>
-          -- known finding F-c15-kv-amp-setid-reuse, attributed only when it is what happened: kv
-          -- store, the vanished htlc is a resolved (settled / canceled) AMP htlc, its set was
-          -- recorded as settled, and this operation is a notify that added an htlc under the
-          -- very same set id (kvInvoiceUpdater.UpdateAmpState rewrites the set's htlc blob)
-          let reuse := !s.cfg.sql && (h.st == "S" || h.st == "C") &&
+          -- plain violation on either store.  (Finding F-c15-kv-amp-setid-reuse, fixed in lnd
+          -- 4ae3b4a: the kv store dropped the resolved htlcs of a settled AMP set id when that
+          -- set id was paid again; a regression is recognisable by the hint in the text.)
+          let reuse := (h.st == "S" || h.st == "C") &&
             (match h.amp, s.opNotify with
              | some (sid, _, _), some n =>
                (n.amp.map (·.take 8)) == some sid &&
                (d.sets.find? (·.1 == sid)).map (·.2) == some "S" &&
                (d'.htlcs.any (·.key == n.key)) && !(d.htlcs.any (·.key == n.key))
              | _, _ => false)
-          if reuse then
-            -- the database has forgotten the htlc: so does the monitor's history of it
-            s := { s with intro := s.intro.filter (·.1 != h.key),
-                          settledKeys := s.settledKeys.filter (· != h.key),
-                          canceledKeys := s.canceledKeys.filter (· != h.key),
-                          groups := s.groups.filter (·.1 != h.key) }
-            s ← monitor s "amp_setid_reuse_kv" s!"{h.st} htlc {keyStr h.key} vanished from invoice {d.hash} when its settled set id was paid again (kv store)"
-          else
-            s ← monitor s "states_monotone" s!"htlc {keyStr h.key} vanished from invoice {d.hash}"
+          let hint := if reuse then " when its settled set id was paid again" else ""
+          s ← monitor s "states_monotone" s!"{h.st} htlc {keyStr h.key} vanished from invoice {d.hash}{hint}"
         | some h' =>
           if !htlcStateOk h.st h'.st then
             s ← monitor s "states_monotone" s!"htlc {keyStr h.key} on {d.hash}: {h.st} -> {h'.st}"
